@@ -228,27 +228,73 @@ def _run_unit(args):
   return ctx.summary()
 
 
-def run_check(pid, units, tier="quick", seed=0, level="model_checking", rule=None, workers=None, extra_cov=None, assumptions=()):
-  """units: list of (name, callable(ctx)).  Returns exit code; writes evidence, prints result lines."""
+def _empty_summary(n, err=None, note=None):
+  return {"unit": n, "queries": [], "violations": [], "known_hits": [], "errors": [err] if err else [], "encoded": {}, "bounds": {}, "assumptions": [], "notes": [note] if note else [], "solver_s": 0, "wall_s": 0, "log": []}
+
+
+def _child(conn, job):
+  try:
+    conn.send(_run_unit(job))
+  except Exception as ex:
+    conn.send(_empty_summary(job[1], f"unit {job[1]}: could not return result: {ex}"))
+  finally:
+    conn.close()
+
+
+def run_check(pid, units, tier="quick", seed=0, level="model_checking", rule=None, workers=None, extra_cov=None, assumptions=(), unit_timeout=None, on_timeout="error"):
+  """units: list of (name, callable(ctx)).  Returns exit code; writes evidence, prints result lines.
+
+  Each unit runs in its own forked process with a wall-clock budget; on_timeout: 'error' (harness error) or 'skip'
+  (recorded as skipped: nothing claimed) or a callable(name) -> 'error' / 'skip'."""
   t0 = time.time()
   known = load_known(pid)
   global _UNITS
   _UNITS = list(units)
   jobs = [(pid, n, i, tier, seed, known) for i, (n, f) in enumerate(units)]
   workers = workers or int(os.environ.get("WSYM_WORKERS", "16"))
-  sums = []
-  if workers <= 1 or len(jobs) <= 1 or os.environ.get("WSYM_SERIAL"):
-    for j in jobs:
-      sums.append(_run_unit(j))
+  unit_timeout = unit_timeout or (300 if tier == "quick" else 1800)
+  sums = [None] * len(jobs)
+  if os.environ.get("WSYM_SERIAL"):
+    for i, j in enumerate(jobs):
+      sums[i] = _run_unit(j)
   else:
     ctx = mp.get_context("fork")
-    with cf.ProcessPoolExecutor(max_workers=min(workers, len(jobs)), mp_context=ctx) as ex:
-      futs = [ex.submit(_run_unit, j) for j in jobs]
-      for (pid_, n, *_), f in zip(jobs, futs):
-        try:
-          sums.append(f.result())
-        except Exception as e:
-          sums.append({"unit": n, "queries": [], "violations": [], "known_hits": [], "errors": [f"unit {n}: worker died: {e}"], "encoded": {}, "bounds": {}, "assumptions": [], "notes": [], "solver_s": 0, "wall_s": 0, "log": []})
+    pending = list(range(len(jobs)))
+    running = {}  # idx -> (proc, conn, start)
+    while pending or running:
+      while pending and len(running) < workers:
+        i = pending.pop(0)
+        pc, cc = ctx.Pipe(duplex=False)
+        p = ctx.Process(target=_child, args=(cc, jobs[i]))
+        p.start()
+        cc.close()
+        running[i] = (p, pc, time.time())
+      done = []
+      for i, (p, pc, st) in running.items():
+        if pc.poll(0):
+          try:
+            sums[i] = pc.recv()
+          except Exception as ex:
+            sums[i] = _empty_summary(jobs[i][1], f"unit {jobs[i][1]}: worker died: {ex}")
+          p.join(5)
+          done.append(i)
+        elif not p.is_alive():
+          sums[i] = _empty_summary(jobs[i][1], f"unit {jobs[i][1]}: worker exited with code {p.exitcode} without a result")
+          done.append(i)
+        elif time.time() - st > unit_timeout:
+          p.kill()
+          p.join(5)
+          n = jobs[i][1]
+          mode = on_timeout(n) if callable(on_timeout) else on_timeout
+          if mode == "skip":
+            sums[i] = _empty_summary(n, None, f"skipped: encoding/solving exceeded the {unit_timeout}s unit budget (nothing claimed)")
+          else:
+            sums[i] = _empty_summary(n, f"unit {n}: exceeded the {unit_timeout}s unit budget (inconclusive)")
+          done.append(i)
+      for i in done:
+        running.pop(i)
+      if not done:
+        time.sleep(0.05)
   return finish(pid, sums, tier, seed, level, rule, time.time() - t0, extra_cov, assumptions)
 
 
